@@ -114,6 +114,8 @@ def run(res, tier, rng):
         if out == Exc("OracleMiss"):
             miss += 1
             continue
+        if out is common.NOMODEL:
+            continue
         if isinstance(out, Exc) or out is None:
             res.violation("correspondence", "model returned %r" % (out,), input=dict(adds=adds))
             continue
